@@ -70,12 +70,14 @@ PLAN = {
         "packages": ["vnative"],
         "engines": [
             {"name": "n-sigstrings", "argv": [VNATIVE, "sig", "--property", "C09"]},
+            {"name": "g-sigfamily", "argv": VGEN + ["family", "--property", "C09"]},
         ],
     },
     "C10": {
         "packages": ["vnative", "vsim"],
         "engines": [
             {"name": "n-boolsig", "argv": [VNATIVE, "sig", "--property", "C10"]},
+            {"name": "g-sigfamily", "argv": VGEN + ["family", "--property", "C10"]},
             {"name": "n-probe-bool", "argv": [VNATIVE, "probe", "--property", "C10"]},
             {"name": "s1-arm64", "argv": [VSIM, "arm64", "--property", "C10", "--modes", "bool"]},
             {"name": "s1-arm", "argv": [VSIM, "arm", "--property", "C10", "--modes", "bool"]},
